@@ -9,6 +9,7 @@ import (
 	"sort"
 	"strings"
 	"sync"
+	"time"
 
 	"google.golang.org/grpc"
 	"google.golang.org/grpc/credentials/insecure"
@@ -68,10 +69,7 @@ func runCase(c kase) *runState {
 				}
 			}()
 			// the guarded waits inside drive, plus slack
-			ok := false
-			for i := 0; i < 8 && !ok; i++ {
-				ok = wait(done)
-			}
+			ok := waitFor(done, 8*guard+endBound+graceAfter)
 			if !ok {
 				st.fail("hang: outer call did not return")
 			} else if err != nil {
@@ -282,12 +280,13 @@ type outcome struct {
 	phases             int
 	late               int
 	earlyLive, shared  bool
+	cut, skipped       bool
 	wantIn, credsWant  string
 	credsCalls, layers int
 }
 
 func summarize(c kase, st *runState) outcome {
-	o := outcome{c: c, findings: st.findings, internal: st.internal, phases: st.phases, late: st.lateLookups, earlyLive: st.earlyLive, shared: st.sharedSeen,
+	o := outcome{c: c, findings: st.findings, internal: st.internal, phases: st.phases, late: st.lateLookups, earlyLive: st.earlyLive, shared: st.sharedSeen, cut: st.cut,
 		wantIn: mdString(st.wantIncoming)}
 	if st.creds != nil {
 		o.credsWant = mdString(st.credsWant)
@@ -298,7 +297,8 @@ func summarize(c kase, st *runState) outcome {
 
 // runAll runs the cases on `workers` goroutines (every case has its own channel
 // and its own state; the verdicts do not depend on the number of workers) and
-// returns the outcomes in the order of the cases.
+// returns the outcomes in the order of the cases. After the first case that
+// could not be decided no further case is started (the run ends INCONCLUSIVE).
 func runAll(cases []kase, workers int) []outcome {
 	out := make([]outcome, len(cases))
 	var wg sync.WaitGroup
@@ -308,7 +308,15 @@ func runAll(cases []kase, workers int) []outcome {
 		go func() {
 			defer wg.Done()
 			for i := range next {
+				if aborted.Load() {
+					// a case could not be decided (INCONCLUSIVE): nothing more is started
+					out[i] = outcome{c: cases[i], skipped: true}
+					continue
+				}
 				out[i] = summarize(cases[i], runCase(cases[i]))
+				if out[i].internal != "" {
+					aborted.Store(true)
+				}
 			}
 		}()
 	}
@@ -390,8 +398,16 @@ func (g *group) fingerprint(key string) string {
 	return fmt.Sprintf("C10|%s|where=%s|base=%s", key, where, base)
 }
 
+// reporter is set once main has one: violations that were reported before the
+// check found that it cannot decide the rest stand (exit 1).
+var reporter *vlib.Reporter
+
 func inconclusive(msg string) {
 	fmt.Fprintln(os.Stderr, "INCONCLUSIVE:", msg)
+	if reporter != nil && reporter.Violations > 0 {
+		fmt.Fprintf(os.Stderr, "(the %d violation(s) reported above stand; the rest of the grammar was not decided)\n", reporter.Violations)
+		os.Exit(1)
+	}
 	os.Exit(2)
 }
 
@@ -479,6 +495,7 @@ func main() {
 		}
 	}
 	rep := vlib.NewReporter("C10")
+	reporter = rep
 	thorough := rep.Tier == "thorough"
 
 	if msg := selfTest(); msg != "" {
@@ -493,6 +510,10 @@ func main() {
 		if sniff.Part == "reuse" {
 			replayReuse(p)
 		}
+		if sniff.Part == "cancel" {
+			replayCancel(p)
+		}
+		measureControl()
 		var c kase
 		if err := common.LoadReplay(p, &c); err != nil || c.Kind == "" {
 			inconclusive(fmt.Sprintf("cannot load replay: %v", err))
@@ -501,7 +522,7 @@ func main() {
 		if st.internal != "" {
 			inconclusive(st.internal)
 		}
-		fmt.Printf("replay: %s: handler phases completed %d/4, %d clause(s) violated\n", c, st.phases, len(st.findings))
+		fmt.Printf("replay: %s: handler phases completed %d/4, %d clause(s) violated (bound on the wait for the end of the handler's context: %v)\n", c, st.phases, len(st.findings), endBound)
 		for _, f := range st.findings {
 			fmt.Printf("  %s (%s, %s): %s\n", f.Clause, f.Where, f.When, f.Detail)
 		}
@@ -513,6 +534,16 @@ func main() {
 	}
 
 	allBases := []string{"background", "in-unary-handler", "in-stream-handler"}
+	workers := runtime.NumCPU()
+	if workers > 16 {
+		workers = 16
+	}
+	if workers < 2 {
+		workers = 2
+	}
+
+	// how long a context that must end is waited for, from a control measurement on this machine
+	measureControl()
 
 	// the oracle against the standard transport (thorough only): must agree everywhere
 	refRuns := 0
@@ -586,6 +617,90 @@ func main() {
 		}
 	}
 
+	// the cancel part (cancel.go): first over the standard transport (thorough), then in-process
+	cancelRefRuns := 0
+	if thorough {
+		refs := map[bool]*cancelRef{}
+		for _, ic := range []bool{false, true} {
+			r, err := newCancelRef(ic)
+			if err != nil {
+				inconclusive("bufconn reference: " + err.Error())
+			}
+			refs[ic] = r
+		}
+		for _, o := range runCancelPart(cancelGrammar([]string{"background"}), workers, refs) {
+			if o.skipped {
+				continue
+			}
+			cancelRefRuns++
+			if o.internal != "" {
+				inconclusive("bufconn reference, " + o.c.String() + ": " + o.internal)
+			}
+			if len(o.findings) > 0 {
+				f := o.findings[0]
+				inconclusive(fmt.Sprintf("the oracle disagrees with grpc-go over bufconn on %s: %s (%s, %s): %s", o.c, f.Clause, f.Where, f.When, f.Detail))
+			}
+		}
+		for _, r := range refs {
+			r.cc.Close()
+			r.srv.Stop()
+		}
+		refRuns += cancelRefRuns
+	}
+	cancelCases := cancelGrammar(allBases)
+	cancelOuts := runCancelPart(cancelCases, workers, nil)
+	cgroups, corder := groupCancel(cancelOuts)
+	for _, k := range corder {
+		g := cgroups[k]
+		fp, matters := cancelFingerprint(g, cancelCases)
+		scope := "every value of every other axis of the part has a failing case"
+		if len(matters) > 0 {
+			scope = "axes on which not every value has a failing case: " + strings.Join(matters, ", ")
+		}
+		rep.Violation(fp, fmt.Sprintf("%s [%d failing cases of this RPC kind and end of context in the cancel part; %s; the replay is the simplest case]", g.detail, len(g.failing), scope), g.first)
+	}
+	cancelEnded, cancelLive, cancelNotEnded := 0, 0, 0
+	cancelByKind := map[string]int{}
+	var cancelMaxLag time.Duration
+	var cancelSamples []interface{}
+	cancelSampled := map[string]bool{}
+	for _, o := range cancelOuts {
+		if o.skipped {
+			continue
+		}
+		if o.internal != "" {
+			inconclusive(o.c.String() + ": " + o.internal)
+		}
+		notProp := false
+		for _, f := range o.findings {
+			if f.Clause == "cancel-not-propagated" {
+				notProp = true
+			}
+		}
+		if notProp {
+			cancelNotEnded++
+			if class, ok := o.c.mainClass(false); ok {
+				stuck.add(class, "cancel part: "+o.c.String())
+			}
+		}
+		if o.ended {
+			cancelEnded++
+			if o.lag > cancelMaxLag {
+				cancelMaxLag = o.lag
+			}
+		}
+		if o.ended && o.live {
+			cancelLive++
+			cancelByKind[o.c.Kind+"/"+o.c.End]++
+		}
+		sk := o.c.Kind + "|" + o.c.End
+		if !cancelSampled[sk] && o.c.Base == "in-stream-handler" && o.c.IC && o.c.Creds && o.c.Client != "receiving" && (o.c.Watch == "derived-poll" || o.c.Watch == "recv") && (o.c.End == "deadline" || o.c.Deadline && o.c.Depth == "ancestor") {
+			cancelSampled[sk] = true
+			cancelSamples = append(cancelSamples, map[string]interface{}{"case": o.c, "description": o.c.String(), "watched_context_live_when_the_handler_began_to_watch": o.live,
+				"watched_context_seen_done_after_the_end_of_the_callers": o.ended, "clauses_violated": len(o.findings)})
+		}
+	}
+
 	ctxCases := contextGrammar(allBases)
 	dlCases := deadlineGrammar(allBases, thorough)
 	mdCases := mdGrammar(allBases)
@@ -607,17 +722,15 @@ func main() {
 		pinnedCh <- r
 	}()
 
-	workers := runtime.NumCPU()
-	if workers > 16 {
-		workers = 16
-	}
-	if workers < 2 {
-		workers = 2
-	}
 	outs := runAll(cases, workers)
 
-	evals := 0
+	evals, cutShort := len(cancelOuts), 0
 	distinct := map[string]bool{}
+	for _, o := range cancelOuts {
+		if o.ended && o.live {
+			distinct[o.c.String()] = true
+		}
+	}
 	byEnd := map[string]int{}
 	lateLookups, credsCases, sharedJoined, dlLive := 0, 0, 0, 0
 	keyCasesDone, keysSeen := 0, map[string]bool{}
@@ -629,9 +742,15 @@ func main() {
 	var order []string
 	for _, o := range outs {
 		c := o.c
+		if o.skipped {
+			continue
+		}
 		evals++
 		if o.internal != "" {
 			inconclusive(c.String() + ": " + o.internal)
+		}
+		if o.cut {
+			cutShort++
 		}
 		if o.phases == 4 && (c.Layers != 0 || c.Base != "background" || c.Creds != "") {
 			distinct[c.String()] = true
@@ -761,11 +880,22 @@ func main() {
 			"key_alphabet_cases":       len(keyCases),
 			"key_alphabet":             keyAlphabetNames(),
 			"pinned_reuse_cases":       len(reuseCases),
+			"cancel_part_cases":        len(cancelCases),
 			"pinned_reuse_runs":        reuseEvals,
 			"instants_per_case":        "handler: entry, parked, context-end (after-cancel / after-deadline), after the caller's call returned; interceptor: entry, after the handler returned",
 			"lookups_per_late_instant": lookups,
 		},
 		"nontrivial_by_end_of_context":                                 byEnd,
+		"cancel_part_cases_where_the_watched_context_was_seen_done":    cancelEnded,
+		"cancel_part_cases_live_before_and_done_after":                 cancelLive,
+		"cancel_part_live_then_done_by_kind_and_end":                   cancelByKind,
+		"cancel_part_cases_where_the_context_never_ended":              cancelNotEnded,
+		"cancel_part_slowest_end_after_the_handler_saw_the_callers_ms": float64(cancelMaxLag.Microseconds()) / 1000,
+		"cancel_part_reference_runs_on_grpc_bufconn":                   cancelRefRuns,
+		"end_of_context_bound":                                         endBound.String(),
+		"end_of_context_control_measurement_slowest_of_64":             controlMax.String(),
+		"classes_of_the_main_sweep_whose_context_never_ends":           stuck.list(),
+		"main_sweep_cases_run_without_the_instants_after_the_end_of_the_context_because_their_class_never_sees_it": cutShort,
 		"accessor_lookups_after_context_end":                           lateLookups,
 		"cases_with_per_rpc_credentials":                               credsCases,
 		"cases_where_handler_saw_caller_and_credentials_joined":        sharedJoined,
@@ -782,18 +912,21 @@ func main() {
 			"DEADLINE EXPIRY: the same with a real short deadline of the caller that passes while the handler waits on ctx.Done(), over " + dlLayerSets + ". " +
 			"METADATA SWEEP, around each base case (3 bases x unary/stream x interceptors x other seven layers none/all): every triple of subsets of the key alphabet {ka (one value per source), kb (two values from NewOutgoingContext, two appended pairs, one from the credentials), authorization} given to NewOutgoingContext, to AppendToOutgoingContext and returned by the per-RPC credentials (9 = 8 subsets incl. credentials returning nothing + no credentials option) x lower/mixed-case spelling (each source spells a key differently) x 2 stacking orders (NewOutgoingContext after AppendToOutgoingContext discards the appended pairs). " +
 			"KEY ALPHABET SWEEP, around each base case (3 bases x unary/stream x interceptors x other seven layers none/all): each of the " + fmt.Sprint(len(keyAlphabet)) + " keys listed under grammar.key_alphabet (keys that look like protocol headers: grpc- prefix with and without -bin suffix, names grpc-go itself uses, HTTP header names, look-alikes of reserved names, pseudo headers; some that the standard transport forwards and some that it withholds) and all of them at once x every non-empty set of sources that carry the key {NewOutgoingContext (two values), AppendToOutgoingContext, per-RPC credentials} (withheld keys never from the credentials) x {alone, next to the ordinary key ka in every source} x lower/mixed spelling x 2 stacking orders; binary values for -bin keys. A forwarded key must reach the handler exactly like an ordinary key; of a withheld key nothing is demanded in the handler's incoming metadata, but ClientContext must show it. " +
+			"CANCEL PART (how a call stands when its caller's context ends), fully crossed: kind {unary, server-stream (stub = NewStream+SendMsg+CloseSend), client-stream, bidi-stream} x end of the caller's context {the caller cancels: no deadline / a far deadline next to it x the context passed to the call / an ancestor of it below value and metadata layers; a short real deadline passes} x what the handler does when that happens {waits on Done() of its context (stream.Context()), polls Err() of it, waits on Done() of a context.WithCancel child, polls Err() of a context.WithTimeout child, is blocked in RecvMsg (client not half-closed), is in a loop of SendMsg (kinds with a response stream)} x client has sent {0, 1} messages x {half-closed, not} (client-streaming kinds) x client from then on {blocked in Invoke / in a RecvMsg loop, does not touch the stream again} x interceptors x per-RPC credentials x 3 base contexts. Demanded: caller's deadline at entry, not done before the caller's context is, done after it is (Err() Canceled; DeadlineExceeded or Canceled after a deadline). The handler's goroutine reads the end of the caller's context off the caller's own context and from then on waits at most end_of_context_bound (max(20 s, 2000 x the slowest of 64 control measurements on this machine of a cancellation through a context derived from a wrapper type), then yields and 2 s more): a context that is still open then is reported as cancel-not-propagated, the check carries on; all cases of the part are in flight together, so that costs one bound in all. Classes (kind, interceptors, base, end, deadline, credentials) of the main sweep found like that are listed under classes_of_the_main_sweep_whose_context_never_ends and their cases run without the instants after the end of the context (counted in main_sweep_cases_run_without_...); a class the cancel part does not cover is found by the main sweep at the cost of one bound. A cancel case is non-trivial when the watched context was live when the handler began to watch it and was seen done afterwards. " +
 			"PINNED RE-USE PART (the caller changes the MD it gave to NewOutgoingContext immediately after the stub call returned, before anything that yields; one MD re-used for a series of calls with another value each), fully crossed: kind {unary, server-stream (stub = NewStream+SendMsg+CloseSend), client-stream, bidi-stream} x interceptors x series of 1, 2, 3 calls with one MD x {one context re-used, a context made of the same MD per call} x {MD alone, appended pairs on top} x {no credentials, per-RPC credentials} x change made right after each stub call {Set, write into the value slice in place, add a key, delete a key, append a value into spare capacity} x {each call completed right after the change, all calls completed after the last change} x first look of handler and interceptor at their metadata {at entry, only after the whole series through a kept context}; every look of every call must show the caller's outgoing metadata as it was when that stub call was made. This part runs in a child process pinned to one P (runtime.GOMAXPROCS(1), GODEBUG=asyncpreemptoff=1, GC off), where a goroutine started by the call cannot run before the caller blocks; each case is run twice after letting leftovers of earlier runs finish and the two runs must make identical observations (pinned_reuse_cases_with_identical_observations_twice; a pair that differs is repeated up to 4 times and reported as unstable if it still differs). " +
 			"Each case is a real call on a fresh inprocgrpc.Channel. The whole oracle (no caller value visible, incoming metadata = caller's outgoing joined with the credentials', in-process peer, own transport stream, caller's deadline, not done before the caller's context, ClientContext = the caller's context with all its values, chain of client contexts for nested calls) is evaluated inside the handler at entry, again while parked after the caller mutated in place / Set / deleted on the very map it gave to NewOutgoingContext, again after ctx.Done() (cancel or deadline), and again after the gate 'the caller's Invoke/RecvMsg has returned'; inside the interceptor at entry and after the handler returned. " +
 			"At every instant after the end of the context the accessors are looked up `lookups` times with runtime.Gosched() in between before the full oracle runs (work the library left to goroutines gets the processor; no clock). " +
 			"A case is non-trivial when the caller context carried at least one thing the library has to block, replace or join (a layer, credentials, or the enclosing handler's own context) and the handler completed all four phases; a pinned case when every look of every call of the series was made in both runs and the two runs agree; distinct by all parameters.",
-		"samples":                        append(samples, reuseSamples...),
+		"samples":                        append(append(samples, reuseSamples...), cancelSamples...),
 		"exhaustive":                     true,
 		"reference_runs_on_grpc_bufconn": refRuns,
 	}, []string{
-		"the far deadline is one hour ahead and equality of deadlines is checked, never elapsed time; the short deadline (8 ms; 80 ms over bufconn) only has to pass, nothing is compared with it: the handler waits on ctx.Done(), and a context that is done earlier than expected is judged by the state of the caller's own context read afterwards; 30 s timers are hang guards only",
+		"the far deadline is one hour ahead and equality of deadlines is checked, never elapsed time; the short deadline (8 ms; 80 ms over bufconn) only has to pass, nothing is compared with it: the handler waits on ctx.Done(), and a context that is done earlier than expected is judged by the state of the caller's own context read afterwards; 30 s timers are hang guards",
 		"state that the library drops asynchronously after the end of the call's context is made visible by a bounded number of scheduler yields between look-ups and by the gate 'the caller's call has returned', not by waiting for a time",
 		"the deadline-expiry dimension is crossed with all layer subsets only in the thorough tier; in the quick tier it is swept over the layer sets none / each single layer / all; the metadata key-set dimension is swept around the base cases (layers other than the two metadata layers none or all), with end of context = cancel",
 		"on a key that caller and credentials both supply the order between the caller's values and the credentials' is not demanded (grpc-go sends the credentials' first, the in-process channel appends them); the caller's values must keep their order",
+		"the only elapsed time that decides anything is the bound on the wait for a context that the property says must end (cancel part and main sweep, awaitDone): at least 20 s after the waiting goroutine itself saw the caller's context done, scaled up by a control measurement under the current load, re-checked after yields and a grace period; its expiry is the violation 'the caller's cancellation / deadline does not reach the handler's context'. Every other guard that expires (handler not entered, the caller's own call does not return, a handler whose context ended does not come back from RecvMsg/SendMsg, the pinned child) ends the run INCONCLUSIVE (exit 2; exit 1 if violations had been reported before) and no further case is started",
+		"in the cancel part the harness cannot know that a handler is already parked inside RecvMsg / SendMsg / select when the caller's context ends; it yields the processor a bounded number of times before it cancels, and nothing in the oracle depends on it",
 		"metadata aliasing can only be probed through the public metadata API (which copies) and through the map the caller gave to NewOutgoingContext",
 		"which keys the standard transport forwards is a table in the check (grammar.key_alphabet); the thorough tier checks every row in both directions against grpc-go v1.57.1 over bufconn (a forwarded key must arrive exactly, a withheld key must show none of the caller's values) and stops as INCONCLUSIVE on a disagreement; keys that break a real connection (connection, upper-case or non-printable names) are not in the alphabet; the key alphabet is swept around the base cases with end of context = cancel, not crossed with the other eight layers' subsets",
 		"the pinned re-use part has no clock and no sleep: the window 'the stub call has returned, the caller has not yet yielded' is made deterministic by a single P with asynchronous preemption off in a child process (which also contains a runtime abort 'concurrent map iteration and map write' of a library that reads the caller's map late: that abort is reported as a violation of the same clause); the caller yields nowhere between the return of the stub call and its change of the MD; it is made from a background context (not crossed with base contexts and layers); the thorough tier runs the same part over grpc-go/bufconn, where it must hold too",
